@@ -408,7 +408,24 @@ def case_replay(desc, frame_ints, one, peaks, method, problems, extra=None):
     return r
 
 
+PREMISE_SKIPS = {'not_centro_symmetric': 0}
+
+
+def is_csym(mask):
+    """cyclic point symmetry about pixel shape//2 (the premise 'centro-symmetric template' of C03)"""
+    N, M = mask.shape
+    t = (2 * (N // 2) - np.arange(N)) % N
+    u = (2 * (M // 2) - np.arange(M)) % M
+    return bool(np.allclose(mask, mask[np.ix_(t, u)], atol=1e-12))
+
+
 def check_oracle(pattern, frame, peaks, method, outs):
+    c0 = pattern.get_crop_size()
+    shape = (2 * c0, 2 * c0) if method == 'fast' else np.asarray(frame).shape
+    if not is_csym(np.asarray(pattern.get_mask(shape), dtype=np.float64)):
+        # e.g. a user template cropped to a smaller frame with the other parity: outside the property's premise
+        PREMISE_SKIPS['not_centro_symmetric'] += 1
+        return []
     maps, scale = oracle_maps(pattern, frame, peaks, method)
     c = pattern.get_crop_size()
     probs = []
